@@ -5,7 +5,7 @@ from hypothesis import strategies as st
 
 from vlib import strategies as vs
 from vlib.models.ddm_eddm_stepd import DDMSpec, EDDMSpec, STEPDSpec
-from vlib.runner import SubCheck, Violation, sut
+from vlib.runner import Decoy, SubCheck, Violation, sut
 from vlib.tolerant import Forker, close
 
 SPECS = {"DDM": DDMSpec, "EDDM": EDDMSpec, "STEPD": STEPDSpec}
@@ -67,9 +67,11 @@ def check_seq(case, ctx):
     det_name, params, seq = case["det"], case["params"], case["seq"]
     with sut(detector=det_name):
         d = make(det_name, params)
+    decoy = Decoy(lambda: make(det_name, params), lambda o, e_: o.update(1, e_), every=2)
     fk = Forker(SPECS[det_name](*params), copier=_clone_model)
     nwarn = ndrift = 0
     for i, e in enumerate(seq):
+        decoy.step((i // 2) % 2)
         verdict, obs = advance(det_name, d, fk, e, i, seq[: i + 1], params)
         if verdict == "overflow":
             ctx.label("truncated-ambiguous")
